@@ -86,6 +86,7 @@ package goja
 //@ iface Value.ToFloat
 //@   props C05
 //@   ensures specIsNumber(self) ==> specSameFloat(result, specNumVal(self)) [number]
+//@   assigns script
 
 //@ iface Value.ToNumber
 //@   props C05
